@@ -37,7 +37,7 @@ class IfChangedNode(Node):
         self.blank = block.blank
 
     def __str__(self) -> str:
-        return f"{{% ifchanged %}}{{ {self.block} }}{{% endifchanged %}}"
+        return f"{{% ifchanged %}}{self.block}{{% endifchanged %}}"
 
     def render_to_output(self, context: RenderContext, buffer: TextIO) -> int:
         """Render the node to the output buffer."""
